@@ -140,8 +140,11 @@ func (obj *SparseFloat64Vector) SLICE(i, j int) *SparseFloat64Vector {
       break
     }
     k := it.Get()
-    r.values[k-i] = obj.values[k]
-    r.indexInsert(k-i)
+    // the index may hold positions without a value
+    if v, ok := obj.values[k]; ok {
+      r.values[k-i] = v
+      r.indexInsert(k-i)
+    }
   }
   return r
 }
